@@ -114,11 +114,12 @@ def crossratio(
         if not np.all(collinear):
             raise NotCollinear("The points are not collinear: " + str([a, b, c, d]))
 
-        basis = np.stack([a.array, b.array], axis=-2)
+        basis = np.stack(np.broadcast_arrays(a.array, b.array), axis=-2)
         a = matvec(basis, a.array)
         b = matvec(basis, b.array)
         c = matvec(basis, c.array)
         d = matvec(basis, d.array)
+        a, b, c, d = np.broadcast_arrays(a, b, c, d)
         o = []
 
     elif from_point is not None:
